@@ -35,11 +35,10 @@ Status of the clauses of the statement
   (`c12_independent`). "Before the timeout" is the order of events (commit before `timeoutTake`); how that order
   arises from wall-clock time is A-time.
 * "presented once to every callback": PROVED for every member over all event lists (`c12_presented_once_each`).
-* across connections (`Spine/ApprovalConn.lean`, not part of the all-schedule theorems): `dropConn` is the clean-up
-  of `CleanWriteApprovalCaches`; the driver applies it when the harness removes a connection, counters are reused
-  afterwards. `Appr.stale_tally_after_disconnect_witness` (kernel-checked, replayed on the real code, finding
-  `verdict-racing-disconnect-leaves-approval-for-reused-counter`): a verdict past its lookup at the disconnect leaves
-  an approval that a reused counter inherits. The theorems below are per connection.
+* across connections: see the section "across connections" below — the all-schedule theorems include the event
+  `drop` on write instances (`c12_nothing_after_disconnect` is new); the counter-keyed family `Spine.ApprE` carries
+  the two defects of the code there (`c12_reused_counter_refuted`, `c12_old_verdict_after_reuse_refuted`) and is
+  tied to the instance-keyed model by the driver's side-by-side run (validated, not proved).
 * real time ("before the approval timeout" as wall-clock time, that `time.AfterFunc` fires after the duration and
   `Stop` reports truthfully): assumption A-time; the harness measures it, the model quantifies over when the timer
   fires.
@@ -57,10 +56,11 @@ theorem c12_at_most_one_outcome (n : Nat) (evs : List Ev) (w : Nat) :
 /-- "Every write gets exactly one outcome", conservation law, repaired member: under every interleaving, a write
     that has arrived has no outcome while its timer is armed or its timeout is in flight, and exactly one as soon
     as neither is the case. (That the timer eventually fires or is stopped is A-time.) -/
-theorem c12_exactly_one_outcome (n : Nat) (evs : List Ev) (w : Nat) (hw : w ∈ (run Cfg.clean n evs).seen) :
+theorem c12_exactly_one_outcome (n : Nat) (evs : List Ev) (hnd : ∀ e ∈ evs, e ≠ .drop) (w : Nat)
+    (hw : w ∈ (run Cfg.clean n evs).seen) :
     ((run Cfg.clean n evs).outcomes.map (·.1)).count w
       = if w ∈ (run Cfg.clean n evs).armed ∨ w ∈ (run Cfg.clean n evs).fired then 0 else 1 :=
-  Appr.c12_exactly_one_outcome n evs w hw
+  Appr.c12_exactly_one_outcome n evs hnd w hw
 
 /-- non-vacuity: three writes, two callbacks, verdicts and timeouts interleaved; one applied, one denied, one timed
     out, a late verdict ignored -/
@@ -148,20 +148,61 @@ example : Quiet {} { nCb := 1 } [.arrive 1, .arrive 2, .arrive 3, .lookup 10 2, 
     .commit 11 true, .timeoutTake 3, .timeoutSend 3] := by
   simp [Quiet, NoStale, step, finish]
 
-/-- REFUTED across connections for the code as it is (finding
-    `verdict-racing-disconnect-leaves-approval-for-reused-counter`): a verdict that looked the write up before the
-    peer's connection was removed commits after the clean-up and leaves its approval behind; the peer connects again,
-    reuses the message counter, and one further approval applies a write for which two callbacks are registered. -/
-theorem c12_reused_counter_refuted :
-    (crun Cfg.clean 2 [.ev (.arrive 5), .ev (.lookup 10 5), .drop, .ev (.commit 10 true),
-      .ev (.arrive 5), .ev (.lookup 11 5), .ev (.commit 11 true)]).outcomes = [(5, .applied)] :=
-  stale_tally_after_disconnect_witness
+/-! ### across connections (disconnect, reconnect, reused counters)
 
-/-- the clean-up itself forgets everything that is keyed by the peer: without a verdict in flight a reused counter
-    starts from nothing -/
-theorem c12_disconnect_forgets (s : St) :
-    (dropConn s).pending = [] ∧ (dropConn s).armed = [] ∧ (dropConn s).tally = none ∧ (dropConn s).seen = [] :=
-  dropConn_clean s
+The instance-keyed model has the event `drop` (the peer's connection is removed: timers stopped, pending and tally
+forgotten); a write is a write INSTANCE, a reused counter is a new instance. The theorems of this file quantify over
+all event lists INCLUDING `drop` (`c12_at_most_one_outcome`, `c12_refines`, `c12_applied_iff_unanimous_in_time`,
+`c12_applied_only_by_completing_approval`, `c12_independent`, `c12_presented_once_each`; only the conservation law
+`c12_exactly_one_outcome` is for lists without `drop` — a write pending at the disconnect gets no outcome).
+How the code, whose maps are keyed by the COUNTER, relates to instances is the family `Spine.ApprE`
+(`Spine/ApprovalConn.lean`, flags `recheck`, `msgId`): its fully repaired member is run side by side with the
+instance-keyed model by the driver on every explored history (any divergence is reported); that equivalence is
+validated, not proved. -/
+
+/-- "Nothing after the disconnect": a write that was waiting when its peer's connection was removed never gets an
+    outcome — whatever verdicts, timeouts, reconnects and reused counters follow (repaired member, all event lists). -/
+theorem c12_nothing_after_disconnect (n : Nat) (evs₁ evs₂ : List Ev) (w : Nat)
+    (h : (specRun n evs₁).st w = .gone) : outs (run Cfg.clean n (evs₁ ++ evs₂)) w = [] := by
+  have hr := outs_of_R _ _ (run_refines n (evs₁ ++ evs₂)) w
+  have hg : (specRun n (evs₁ ++ evs₂)).st w = .gone := by
+    simp only [specRun, List.foldl_append]
+    exact spec_gone_forever n evs₂ _ w h
+  rw [hr, hg]
+
+/-- non-vacuity: write 1 is pending at the disconnect; a verdict that had looked it up commits afterwards, the peer
+    comes back and sends instance 2, which is approved by both callbacks: 1 stays without outcome, 2 is applied -/
+example :
+    (specRun 2 [.arrive 1, .lookup 10 1, .drop]).st 1 = .gone ∧
+    (run Cfg.clean 2 ([.arrive 1, .lookup 10 1, .drop] ++ [.commit 10 true, .arrive 2, .lookup 11 2, .commit 11 true,
+      .lookup 12 2, .commit 12 true])).outcomes = [(2, .applied)] := by decide
+
+/-- REFUTED for /repo as it was before the re-check repair (finding
+    `verdict-racing-disconnect-leaves-approval-for-reused-counter`; counter-keyed model, member `recheck = false`):
+    a verdict past its lookup when the connection is removed commits after the clean-up and leaves its approval
+    behind; the peer reconnects, reuses counter 5, and ONE further approval applies the write although two callbacks
+    are registered. -/
+theorem c12_reused_counter_refuted :
+    (ApprE.run { recheck := false, msgId := false } 2 [.arrive 5, .lookup 10 (0, 5), .drop, .commit 10 true,
+      .arrive 5, .lookup 11 (1, 5), .commit 11 true]).outcomes = [((1, 5), .applied)] :=
+  ApprE.stale_tally_after_disconnect_witness
+
+/-- REFUTED for the member with the re-check only (finding
+    `verdict-of-earlier-connection-taken-for-reused-counter`): a verdict for the MESSAGE of the earlier connection,
+    delivered after the counter is in use again, finds the new write's timer, passes the re-check, stops that timer
+    and applies the old message; the new write never gets an outcome. -/
+theorem c12_old_verdict_after_reuse_refuted :
+    let s := ApprE.run { msgId := false } 1 [.arrive 5, .drop, .arrive 5, .lookup 10 (0, 5), .commit 10 true,
+      .timeoutTake (1, 5), .timeoutSend (1, 5)]
+    s.outcomes = [((0, 5), .applied)] ∧ s.pending = [] ∧ s.armed = [] :=
+  ApprE.old_verdict_after_reuse_witness
+
+/-- both schedules on the fully repaired counter-keyed member (re-check and verdict bound to its message) -/
+theorem c12_reconnect_repaired :
+    (ApprE.run {} 2 [.arrive 5, .lookup 10 (0, 5), .drop, .commit 10 true,
+      .arrive 5, .lookup 11 (1, 5), .commit 11 true]).outcomes = [] ∧
+    (ApprE.run {} 1 [.arrive 5, .drop, .arrive 5, .lookup 10 (0, 5), .commit 10 true,
+      .timeoutTake (1, 5), .timeoutSend (1, 5)]).outcomes = [((1, 5), .error)] := by decide
 
 /-! ### refinement: applied ⇔ unanimous in time, independence (repaired member) -/
 
@@ -185,6 +226,7 @@ theorem c12_applied_iff_unanimous_in_time (n : Nat) (evs : List Ev) (w : Nat) :
   | done o => cases o <;> simp
   | absent => simp
   | waiting k => simp
+  | gone => simp
   | expiring => simp
 
 /-- "A single denial, or the timeout, yields an error result": the write has an error outcome exactly when its
@@ -196,6 +238,7 @@ theorem c12_error_iff_denied_or_timed_out (n : Nat) (evs : List Ev) (w : Nat) :
   | done o => cases o <;> simp
   | absent => simp
   | waiting k => simp
+  | gone => simp
   | expiring => simp
 
 /-- The automaton applies a write only at the commit of an approval whose operation looked the write up while it was
